@@ -456,6 +456,39 @@ func c18(c *h.Ctx) {
 		ol.Switch(sink)
 	}
 
+	// ids are unique for the life of the PROCESS: connections that live across a log rotation (Close, Switch to the
+	// new file) keep their ids, and the contexts created after it get ids nobody carries
+	{
+		seen := map[int]string{}
+		dup := ""
+		mk := func(tag string, n int) {
+			for i := 0; i < n; i++ {
+				var ctx context.Context
+				if i%3 == 2 {
+					ctx = ol.AliasContext(context.Background(), nil)
+				} else {
+					ctx = ol.WithContext(context.Background())
+				}
+				id, _ := ol.VerifCid(ctx)
+				if who, ok := seen[id]; ok && dup == "" {
+					dup = fmt.Sprintf("id %d of %s#%d was already handed out to %s", id, tag, i, who)
+				}
+				seen[id] = fmt.Sprintf("%s#%d", tag, i)
+			}
+		}
+		mk("before", 40)
+		ol.Close()
+		mk("closed", 10)
+		ol.Switch(sink)
+		mk("after", 40)
+		ol.Switch(&c18plain{})
+		mk("after-second-switch", 10)
+		ol.Switch(sink)
+		sink.take()
+		c.Hold(dup == "", "ids_unique.across_log_rotation", "40 contexts; Close(); 10 contexts; Switch(w); 40 contexts; Switch(w2); 10 contexts", dup, "100 distinct ids")
+		c.Case("alloc/rotation", "100", true)
+	}
+
 	// F20 regression (fixed finding): the documentation's own example, an object with Cid() = 100
 	{
 		c18log("trace", false, c18obj(100), []interface{}{"The log text."}, "")
